@@ -138,6 +138,12 @@ def jobs(tier, seed):
             for b_ in ("add", "sw", "beq"):
                 if (a_, "ecall", b_) not in picked:
                     out.append(l3job([a_, "ecall", b_], False))
+                    picked.add((a_, "ecall", b_))
+        # always in the quick tier: the full interlock window (producer, filler, consumer)
+        for sk in (("addi", "add", "add"), ("addi", "add", "sw"), ("addi", "addi", "beq"), ("lw", "add", "add"), ("add", "lui", "lw"), ("lw", "sw", "add")):
+            if sk not in picked:
+                out.append(l3job(list(sk), False))
+                picked.add(sk)
     else:
         red = set(REDUCED)
         rest = []
